@@ -61,7 +61,7 @@ pub fn spec(args: &[String]) -> i32 {
     for case in 0..n {
         let rules = { let k = g.rng.below(3); g.rules(if case % 2 == 0 { Profile::Basic } else { Profile::Tame }, k) };
         let groups = [RuleGroup::from_rules(rules.clone())];
-        let words: Vec<String> = (0..1 + g.rng.below(3)).map(|_| if g.rng.chance(1, 2) { g.small_word() } else { g.word() }).collect();
+        let words: Vec<String> = (0..1 + g.rng.below(3)).map(|_| { let w = if g.rng.chance(1, 2) { g.small_word() } else { g.word() }; if g.rng.chance(1, 80) { format!("{}{w}", ["ñ", "ł", "¢"][g.rng.below(3)]) } else { w } }).collect();
         // ---------- romanisers ----------
         let nrom = 1 + g.rng.below(3);
         let mut roms: Vec<Rom> = Vec::new();
@@ -85,11 +85,14 @@ pub fn spec(args: &[String]) -> i32 {
                     let Out::Ok(stages) = guarded(|| verif::run_structural(&groups, w, &[])) else { continue };
                     let fin = match stages.last() { Some(x) => x.clone(), None => match guarded(|| verif::parse_word(w, &[])) { Out::Ok(x) => x, _ => continue } };
                     if w.contains(' ') { continue }
-                    let want = reference_romanise(&fin, &roms);
+                    let amer = w.contains(['¢', 'ƛ', 'λ', 'ł', 'ñ']);
+                    let mut want = reference_romanise(&fin, &roms);
+                    if amer { for (p, r) in [("t͡s", "¢"), ("t͡ɬ", "ƛ"), ("d͡ɮ", "λ"), ("ɬ", "ł"), ("ɲ", "ñ")] { want = want.replace(p, r); } }
                     if want.contains('\u{FFFD}') { st.inc("c15.skipped_replacement_char"); continue }
                     let cards: Vec<String> = verif::cardinals().into_iter().map(|(g, _)| g).collect();
                     let plus_on_dia = fin.sylls.iter().flat_map(|sy| sy.segs.iter()).any(|s| !cards.contains(&render_seg(*s)) && matches!(roms.iter().find(|r| r.matches(s)), Some(Rom { output: ROut::Plus(_), .. })));
-                    if a[i] != want && plus_on_dia { println!("FINDING c15-romanise-differs:plus-on-diacritic-segment from={from:?} rules={rules:?} word={w:?} printed={:?} reference={want:?} default={:?}", a[i], b[i]); }
+                    if a[i] != want && amer { println!("FINDING c15-romanise-differs:americanist-word from={from:?} rules={rules:?} word={w:?} printed={:?} reference={want:?} default={:?}", a[i], b[i]); }
+                    else if a[i] != want && plus_on_dia { println!("FINDING c15-romanise-differs:plus-on-diacritic-segment from={from:?} rules={rules:?} word={w:?} printed={:?} reference={want:?} default={:?}", a[i], b[i]); }
                     else if a[i] != want { println!("FINDING c15-romanise-differs from={from:?} rules={rules:?} word={w:?} printed={:?} reference={want:?} default={:?}", a[i], b[i]); }
                     else if a[i] != b[i] { st.inc("c15.nontrivial"); }
                 }
@@ -126,5 +129,76 @@ pub fn spec(args: &[String]) -> i32 {
         if case < 4 { st.sample(format!("from={from:?} into={into:?} rules={rules:?} words={words:?}")); }
     }
     st.print();
+    0
+}
+
+// ------------------------------------------------------------------------------------------------ correspondence
+fn rom_toks(r: &Rom) -> String {
+    let i = match &r.input { RIn::Ipa(_, s) => format!("I {}", crate::c04::seg_toks(s)), RIn::Mat(f) => format!("M {}{}", f.len(), f.iter().map(|(i, p)| format!(" {} {}", i, *p as u8)).collect::<String>()), RIn::Bound => "B".into() };
+    let o = match &r.output { ROut::Repl(t) => format!("R 0 {} {}", t.chars().count(), crate::words::cps(t)), ROut::Plus(t) => format!("R 1 {} {}", t.chars().count(), crate::words::cps(t)), ROut::Remove => "E".into() };
+    format!("{i} {o}")
+}
+
+fn gen_rom(g: &mut Gen) -> Option<Rom> {
+    let input = match g.rng.below(6) {
+        0 | 1 | 2 => { let t = ["a", "s", "t", "n", "i", "u", "d", "z", "ʃ", "k", "e", "o", "t͡s", "ŋ", "ɲ", "ɬ"][g.rng.below(16)].to_string(); match seg_of(&t) { Some(s) => RIn::Ipa(t, s), None => return None } }
+        3 | 4 => { let k = 1 + g.rng.below(2); let mut fs: Vec<(usize, bool)> = Vec::new(); for _ in 0..k { let i = g.rng.below(crate::gen::FEATS.len()); if !fs.iter().any(|f| f.0 == i) { fs.push((i, g.rng.chance(1, 2))); } } RIn::Mat(fs) }
+        _ => RIn::Bound };
+    let f = FRESH[g.rng.below(FRESH.len())].to_string();
+    let output = match (&input, g.rng.below(4)) { (RIn::Bound, 0) => ROut::Remove, (RIn::Bound, _) => ROut::Repl(f), (_, 0) => ROut::Remove, (_, 1) => ROut::Plus(f), _ => ROut::Repl(f) };
+    Some(Rom { input, output })
+}
+
+/// `alias-ops <ops> <impl> <tier> <seed> <keys>`: romaniser rendering and deromaniser parsing, implementation answers beside the ops
+pub fn ops(args: &[String]) -> i32 {
+    use std::io::Write;
+    quiet_panics();
+    let mut ops = std::io::BufWriter::new(std::fs::File::create(&args[0]).unwrap());
+    let mut imp = std::io::BufWriter::new(std::fs::File::create(&args[1]).unwrap());
+    let thorough = args.get(2).map(|s| s == "thorough").unwrap_or(false);
+    let seed: u64 = args.get(3).and_then(|s| s.parse().ok()).unwrap_or(1);
+    writeln!(ops, "{}", crate::words::order_line(&args[4])).unwrap(); writeln!(imp, "ok").unwrap();
+    let space = crate::words::segment_space(false);
+    let mut g = Gen::new(seed ^ 0xA11A5);
+    let n = if thorough { 300000 } else { 20000 };
+    let (mut nr, mut np, mut hits) = (0u64, 0u64, 0u64);
+    for case in 0..n {
+        if case % 2 == 0 {
+            let w = if g.rng.chance(1, 2) { crate::words::assemble(&mut g, &space) } else { let t = if g.rng.chance(1, 2) { g.small_word() } else { g.word() }; match guarded(|| verif::parse_word(&t, &[])) { Out::Ok(w) => w, _ => continue } };
+            let roms: Vec<Rom> = (0..1 + g.rng.below(3)).filter_map(|_| gen_rom(&mut g)).collect();
+            if roms.is_empty() { continue }
+            let from: Vec<String> = roms.iter().map(|r| r.text()).collect();
+            writeln!(ops, "rendera {} {} {}", roms.len(), roms.iter().map(rom_toks).collect::<Vec<_>>().join(" "), crate::words::word_flat(&w, false)).unwrap();
+            let r = guarded(|| verif::render_word(&w, &from));
+            if let Out::Ok(t) = &r { if Some(t) != guarded(|| verif::render_word(&w, &[])).ok().as_ref() { hits += 1; } }
+            match r { Out::Ok(t) => writeln!(imp, "{}", crate::words::cps(&t)).unwrap(), Out::Err(e) => writeln!(imp, "err {}", err_kind(&e)).unwrap(), o => writeln!(imp, "{}", o.class()).unwrap() }
+            nr += 1;
+        } else {
+            let nd = 1 + g.rng.below(3);
+            let mut ds: Vec<(String, String, SegS)> = Vec::new();
+            for _ in 0..nd {
+                let key = FRESH[g.rng.below(FRESH.len())].to_string();
+                let tgt = ["ʃ", "ŋ", "t͡s", "a", "kʷ", "ə", "s", "t", "ɬ", "ɲ", "i"][g.rng.below(11)].to_string();
+                if let Some(s) = seg_of(&tgt) { if !ds.iter().any(|d| d.0 == key) { ds.push((key, tgt, s)); } }
+            }
+            if ds.is_empty() { continue }
+            let mut t = if g.rng.chance(1, 2) { g.small_word() } else { g.word() };
+            // put keys where their targets stand, and at a few random places
+            for (k, tgt, _) in &ds { if g.rng.chance(2, 3) { t = t.replace(tgt.as_str(), k); } }
+            if g.rng.chance(1, 3) { let at = g.rng.below(t.chars().count() + 1); let b = t.char_indices().nth(at).map(|x| x.0).unwrap_or(t.len()); t.insert_str(b, &ds[0].0); }
+            let into: Vec<String> = ds.iter().map(|(k, tgt, _)| format!("{k} > {tgt}")).collect();
+            writeln!(ops, "parsed {} {} {}", ds.len(), ds.iter().map(|(k, _, s)| format!("{} {} {}", k.chars().count(), crate::words::cps(k), crate::c04::seg_toks(s))).collect::<Vec<_>>().join(" "), crate::words::cps(&t)).unwrap();
+            match guarded(|| verif::parse_word(&t, &into)) {
+                Out::Ok(w) => { let amer = t.contains(['¢', 'ƛ', 'λ', 'ł', 'ñ']); if ds.iter().any(|d| t.contains(d.0.as_str())) { hits += 1; } writeln!(imp, "{}", crate::words::word_flat(&w, amer)).unwrap(); }
+                Out::Err(e) => writeln!(imp, "err {}", err_kind(&e).split('.').nth(1).unwrap_or("?")).unwrap(),
+                o => writeln!(imp, "{}", o.class()).unwrap(),
+            }
+            np += 1;
+        }
+    }
+    println!("STAT alias.ops {}", nr + np);
+    println!("STAT alias.render_ops {nr}");
+    println!("STAT alias.parse_ops {np}");
+    println!("STAT alias.ops_where_an_alias_took_effect {hits}");
     0
 }
